@@ -113,7 +113,9 @@ CLAIMS = {
         "two-parameter ones) must give the model's Ok/Err/kind, in debug and release builds; every indicator parameter is swept "
         "(all 256 values, all MA kinds, NaN/inf/negative numerics) and accepted instances are driven with valid candles.",
    note=COMMON_NOTE + "Indicator init()/validate() are part of the 36 indicator models and the init result kind (Ok / WrongConfig / method error) is compared for every generated configuration incl. boundary values (class ind-init); PARTIAL: 'accepted instances never panic' "
-        "is a theorem only for the methods with a full run theorem (C02-C04, C14, C17). Known finding: CoppockCurve on zero volume.",
+        "is a theorem for the methods with a full run theorem (C02-C04, C14, C17), for every kind of the configurable moving average (C10_every_ma_kind_never_panics) and for the indicators with a run theorem "
+        "(RSI, MACD, ADX with any kinds; Ichimoku, MFI, TrendStrengthIndex, Donchian; CMO, Aroon, Stochastic, Keltner, Bollinger, CMF, SAR, TSI-based, Envelopes); the run drives the whole method suite "
+        "(every stream class incl. signed-zero runs) and 20 000-candle indicator streams for panics. Known finding: CoppockCurve on zero volume.",
    ref="DESIGN.md §5 C10"),
  "C11": dict(cat="proof", tech="translator (source -> Lean table, regenerated every run) + decide over the table + Rust-vs-Rust interface differential run",
    text="tools/extract.py regenerates a Lean table of all indicators from the source on every run (public fields, set() arms with the "
@@ -215,8 +217,11 @@ CLAIMS = {
         "per instance through regime changes incl. log-normal burst -> flat episodes; at late positions and at the steps where the window has just gone flat "
         "(dense around 255, 256, 65535, 65536) outputs are compared with a fresh exact model primed with the last window (allowance "
         "at k=t+n; selections, indices, signals exactly) and recursive methods by one exact model step from their serialized state.",
-   note=COMMON_NOTE + NUM_NOTE + "PARTIAL: float drift over long streams is measured on the explored lengths, not proved; indicators are "
-        "covered through their methods only.",
+   note=COMMON_NOTE + NUM_NOTE + "PARTIAL: float drift over long streams is measured on the explored lengths, not proved (formal drift bounds under the "
+        "standard model of rounding exist for SMA, EMA, WMA). Indicators: 20 000 (thorough 1 000 000) candles per configuration without a panic, late positions against "
+        "a fresh instance where the definition has fading memory, the long-window configurations of every indicator on 1040-candle ramps / walks against the exact model "
+        "(counters, latches, streak lengths), and the exact power-of-two scale law (the same stream quoted in 2^-60: every value an exact power of the factor, every "
+        "signal identical - no model, no tolerance; catches every absolute threshold).",
    ref="DESIGN.md §5 C07"),
 }
 
